@@ -41,14 +41,14 @@ def units():
     U = []
 
     def rb(name, **kw):
-        harness = dict(imports=IMPORTS, setup=RB_SETUP, call=kw.pop('call'))
+        harness = dict(imports=IMPORTS, setup=RB_SETUP, call=kw.pop('call'), self='rb')
         kw.setdefault('let', RB_LET)
         kw['requires'] = RB_REQ + list(kw.get('requires', []))
         kw.setdefault('modifies', ['self._buf'])
         U.append(Unit(Contract('ReadBuf.' + name, setup=setup_readbuf, mode='contract', **kw), harness=harness))
 
     def wb(name, **kw):
-        harness = dict(imports=IMPORTS, setup=WB_SETUP, call=kw.pop('call'))
+        harness = dict(imports=IMPORTS, setup=WB_SETUP, call=kw.pop('call'), self='wb')
         kw.setdefault('let', WB_LET)
         kw['requires'] = WB_REQ + list(kw.get('requires', []))
         kw.setdefault('modifies', ['self._wbuf'])
@@ -66,7 +66,8 @@ def units():
        ensures=["result == val_be(D[P:P + 4])", "0 <= result and result < 4294967296", "self._buf.pos == P + 4", RB_FRAME],
        use=["val_be_word(D[P:P + 4])"])
     rb('read_string', call='rb.read_string()', raises={'struct.error': UNREAD + " < 4"}, result='bytes',
-       ensures=["result == D[P + 4:P + 4 + val_be(D[P:P + 4])]", "self._buf.pos == P + 4 + len(result)", RB_FRAME])
+       ensures=["result == D[P + 4:P + 4 + val_be(D[P:P + 4])]", "self._buf.pos == P + 4 + len(result)", RB_FRAME],
+       use=["val_be_word(D[P:P + 4])"])
     U.append(Unit(Contract(
         'ReadBuf._parse_mpint', params=dict(v='bytes'), mode='contract', result='int',
         cases=[dict(pad=b'\x00', f='>I'), dict(pad=b'\xff', f='>i')],
@@ -106,8 +107,20 @@ def units():
     U.append(Unit(Contract('WriteBuf.write_flush', setup=setup_writebuf, mode='contract', let=WB_LET, requires=WB_REQ,
                            modifies=['self._wbuf'], result='bytes', raises={},
                            ensures=["result == W", "self._wbuf.data == b''", "self._wbuf.pos == 0"]),
-                  harness=dict(imports=IMPORTS, setup=WB_SETUP, call='wb.write_flush()')))
+                  harness=dict(imports=IMPORTS, setup=WB_SETUP, call='wb.write_flush()', self='wb')))
+    # ------------------------------------------------------------------ round trips (lemmas over the contracts above)
+    def rt(name, params, requires, ensures, use=()):
+        U.append(Unit(Contract('rt_codec:' + name, params=params, requires=requires, ensures=ensures, raises={}, use=use),
+                      harness=None))
+    rt('rt_byte', dict(v='int'), ["0 <= v and v < 256"], ["result == v"])
+    rt('rt_bool', dict(v='bool'), [], ["result == v"])
+    rt('rt_int', dict(v='int'), ["0 <= v and v < 4294967296"], ["result == v"], use=["u32_val(v)"])
+    rt('rt_string', dict(v='bytes'), ["len(v) < 4294967296"], ["result == v"], use=["u32_val(len(v))"])
+    rt('rt_int_int', dict(a='int', b='int'), ["0 <= a and a < 4294967296 and 0 <= b and b < 4294967296"],
+       ["result == (a, b)"], use=["u32_val(a)", "u32_val(b)"])
+    rt('rt_string_byte', dict(s='bytes', b='int'), ["len(s) < 4294967296 and 0 <= b and b < 256"],
+       ["result == (s, b)"], use=["u32_val(len(s))"])
     return U
 
 
-LEMMAS = ['rep_len', 'rep_first', 'val_be_ff', 'val_be_00', 'concat_init', 'val_be_concat', 'val_be_word', 'val_be_half', 'pow256_4', 'pow256_add']
+LEMMAS = ['u32_val', 'u32_bytes', 'u32_arith', 'rep_len', 'rep_first', 'val_be_ff', 'val_be_00', 'concat_init', 'val_be_concat', 'val_be_word', 'val_be_half', 'pow256_4', 'pow256_add']
